@@ -387,11 +387,13 @@ private:
   }
 
   epoch_t update_global_epoch(epoch_t curr_epoch, epoch_t new_epoch) {
-    if (global_epoch.load(std::memory_order_relaxed) == curr_epoch) {
-      // (6) - due to the load operations in scan, this acquire-fence synchronizes-with the release-store (4)
-      //       and the seq-cst fence (3)
-      XENIUM_THREAD_FENCE(std::memory_order_acquire);
+    // (6) - due to the load operations in scan, this acquire-fence synchronizes-with the release-store (4)
+    //       and the seq-cst fence (3)
+    // The fence is also required if some other thread has already updated the epoch: the caller continues with
+    // the new epoch and reclaims nodes based on what it has seen in its own scan.
+    XENIUM_THREAD_FENCE(std::memory_order_acquire);
 
+    if (global_epoch.load(std::memory_order_relaxed) == curr_epoch) {
       // The orphans have to be adopted _before_ the new epoch is published. Once the new epoch is visible,
       // other threads can already retire nodes in the new epoch and add them to the same orphan list
       // (when they abandon their retired nodes or terminate); these nodes must not be reclaimed yet.
